@@ -294,7 +294,8 @@ def finish(mod, tier, seed, agg, problems, t0, ncases, exhaustive=False, extra=N
             inconclusive.append("monitor counter %s=%d below floor %d" % (name, agg["counters"].get(name, 0), minimum))
     private_not_entered = []
     for fn in getattr(mod, "MUST_REACH", []):
-        if agg["reached"] and not any(r.endswith(fn) for r in agg["reached"]):
+        # "A|B": either of two public entry points will do (`<<` may or may not be written in terms of `>>`)
+        if agg["reached"] and not any(r.endswith(alt) for alt in fn.split("|") for r in agg["reached"]):
             last = fn.split(".")[-1]
             if last.startswith("_") and not last.startswith("__"):
                 # a private helper is the code's own business: a refactoring may rename, inline or bypass it.  Its absence is
